@@ -42,6 +42,8 @@ def dispatch (st : DrvState) (line : String) : DrvState × String :=
   match tokens line with
   | "frame" :: rest => (st, frameOp rest)
   | "sess" :: rest => sessLine st rest
+  | "pad" :: "preamble" :: rest => (st, preambleOp rest)
+  | "pad" :: rest => sessLine st rest
   | "pipe" :: rest => pipeLine st rest
   | _ => (st, "bad-op")
 
